@@ -95,6 +95,10 @@ impl PanicInfo {
         if self.msg.starts_with("AIR-CONTRACT:") {
             return false;
         }
+        // the rayon stand-in panics where rayon does (a zero chunk size): the caller's doing
+        if self.file.contains("simrayon") && self.msg.contains("chunk_size must not be zero") {
+            return false;
+        }
         !(self.file.starts_with(&repo_root())
             || self.file.contains("/rustc/")
             || self.file.contains("/library/")
